@@ -129,5 +129,33 @@ def run(ctx):
             return "schema says %s, checkformat_delegation says %s" % (want, core.impl_class(io))
         return None
     core.run_stream(ctx, core.Stream("checkformat_delegation: every mutation of a valid delegation", dlc, acc_rel, dl_oracle))
+    # whatever the checker accepts is safe for the verifiers: extreme but accepted versions / thresholds / key lists on both sides
+    nums = [1, True, 2.0, 3, 10 ** 400, 1e300, 2 ** 1024, 1e16, 2 ** 53 + 1, float(2 ** 53), 1e308, 2 ** 63]
+    vc = []
+    for tv, uv in itertools.product(nums, repeat=2):
+        T = M.envelope(M.root_md(tv, (0,), 1), (0,))
+        U = M.envelope(M.root_md(uv, (0,), 1), (0,))
+        vc.append({"w": wire.case("verify_root", T, U), "meta": {"tag": "versions"}})
+    for th in nums:
+        T = M.envelope(M.md("root", 1, {"root": M.delegation((0, 1), th), "key_mgr": M.delegation((), th), "pkg_mgr": M.delegation((2,), 1)}), (0,))
+        U = M.envelope(M.md("root", 2, {"root": M.delegation((0,), th)}), (0, 1))
+        vc.append({"w": wire.case("verify_root", T, U), "meta": {"tag": "thresholds"}})
+        for name in ("root", "key_mgr", "pkg_mgr", "nope"):
+            for gpg in (False, True):
+                vc.append({"w": wire.case("verify_delegation", name, M.envelope(M.md("key_mgr", th, {}), (0, 1), mode="gpg" if gpg else "raw"), T, gpg), "meta": {"tag": "thresholds"}})
+    fam = {"verify_root": G.FAMILIES["verify_root"], "verify_delegation": G.FAMILIES["verify_delegation"]}
+
+    def vor(c, io):
+        fn = wire.dec(c["w"])[0]
+        args = wire.dec(c["w"])[1:]
+        docs = [a for a in args if isinstance(a, dict)]
+        if not all(M.dm_ok(d) for d in docs):
+            return None
+        if not io.startswith("O") and core.impl_class(io) not in fam[fn]:
+            return "%s on checker-accepted metadata ended in %s (outside %s)" % (fn, core.impl_class(io), sorted(fam[fn]))
+        return None
+    core.run_stream(ctx, core.Stream("verifiers on checker-accepted metadata with extreme versions / thresholds (huge ints, integral floats up to 1e308, bools)", vc,
+                                     lambda c, io, mo: None if core.impl_class(io) == core.model_class(mo) or core.model_class(mo) == "unmodelled" else "outcome class differs: implementation %s, model %s" % (core.impl_class(io), core.model_class(mo)),
+                                     vor))
     ctx.assumptions = ["'integer' is the code's grammar int(x) == x and x >= 1 (True and 2.0 included), written into the schema (DESIGN N2)",
                        "the UTC grammar is CPython's strptime for %Y-%m-%dT%H:%M:%SZ plus datetime range checks (Time.v)"]
